@@ -289,7 +289,8 @@ def _has_zero(tree):
 
 # ---------------------------------------------------------------- payload operations counted one by one
 OPS = ["iadd", "iadd", "ilshift", "ilshift", "imul", "add", "radd", "mul", "rmul", "sub", "isub", "iadd_box",
-       "ilshift_box", "mul_box", "mul_elem", "mul_elem", "add_elem", "mul_elem_box", "mul_elem_scalar", "iadd_elem"]
+       "ilshift_box", "mul_box", "mul_elem", "mul_elem", "add_elem", "mul_elem_box", "mul_elem_scalar", "iadd_elem",
+       "rmul_elem", "radd_elem", "add_elem_scalar", "iadd_elem_scalar", "imul_elem_scalar", "ilshift_elem_scalar"]
 VALS = [0, 0, 1, 2, 3, -1, -2, -3, 5, 0.5, -0.5]
 
 
@@ -374,6 +375,32 @@ def check_ops(case, rec):
                 elif op == "add_elem":
                     own["payload_add"] += 1
                     r = fib[i] + fib[j]
+                elif op == "rmul_elem":
+                    own["payload_mul"] += 1
+                    r = v * fib[i]
+                elif op == "radd_elem":
+                    own["payload_add"] += 1
+                    r = v + fib[i]
+                elif op == "add_elem_scalar":
+                    own["payload_add"] += 1
+                    r = fib[i] + v
+                elif op == "iadd_elem_scalar":
+                    own["payload_update"] += 1
+                    own["payload_add"] += vals[i] != 0
+                    e = fib[i]
+                    e += v
+                    vals[i] = vals[i] + v
+                elif op == "imul_elem_scalar":
+                    own["payload_update"] += 1
+                    own["payload_mul"] += 1
+                    e = fib[i]
+                    e *= v
+                    vals[i] = vals[i] * v
+                elif op == "ilshift_elem_scalar":
+                    own["payload_update"] += 1
+                    e = fib[i]
+                    e <<= v
+                    vals[i] = v
                 elif op == "iadd_elem":
                     own["payload_update"] += 1
                     own["payload_add"] += vals[i] != 0
